@@ -109,15 +109,6 @@ def followTy : TokType → Bool
 
 def FollowOK (rest : List Token) : Prop := ∃ t tl, rest = t :: tl ∧ followTy t.ty = true
 
-/-- every number token is in the int64 range (the parser's `strconv.Atoi`; finding D22) -/
-def NumOK (s : List Token) : Prop := ∀ t ∈ s, t.ty = .number → (atoi t.value).isSome
-
-theorem NumOK.left {a b : List Token} (h : NumOK (a ++ b)) : NumOK a := fun t ht => h t (List.mem_append_left _ ht)
-theorem NumOK.right {a b : List Token} (h : NumOK (a ++ b)) : NumOK b := fun t ht => h t (List.mem_append_right _ ht)
-theorem NumOK.tail {a : Token} {b : List Token} (h : NumOK (a :: b)) : NumOK b := fun t ht => h t (List.mem_cons_of_mem _ ht)
-theorem NumOK.head {a : Token} {b : List Token} (h : NumOK (a :: b)) (hn : a.ty = .number) : (atoi a.value).isSome :=
-  h a (List.mem_cons_self ..) hn
-
 theorem binop_pow {ty : TokType} (h : isBinOp ty) : 0 < specPow ty ∧ specPow ty < 10 ∧ followTy ty = true := by
   rcases h with h | h | h | h
   · subst h; decide
@@ -296,30 +287,67 @@ theorem br_number {l n r : Token} (hl : l.ty = .lbracket) (hn : n.ty = .number) 
     exact ⟨_, _, R.nudIndex (p := ⟨l :: bef, n :: r :: rest⟩) hl rfl hn hr hi, by
       simpa [PState.advance] using hall.1 _ (hf id) (.indexExpr .identity (.index i))⟩
 
-theorem br_star {l s r : Token} (hl : l.ty = .lbracket) (hs : s.ty = .star) (hr : r.ty = .rbracket) : MotBr N [l, s, r] := by
+/-- what a projection bracket needs of the state after it: a projection's right-hand side may start
+    there; and, only if a flatten follows (a filter then takes no right-hand side), every stack accepts -/
+def PrhsRun (κ0 : Kont N) (st : PState) : Prop := ∀ κ, Stk κ0 κ → ∀ bp, bp ≤ 45 → CallK (.prhs bp st) κ
+
+def EndOK (κ0 : Kont N) (st : PState) (rest : List Token) : Prop :=
+  PrhsRun κ0 st ∧ ((∃ t tl, rest = t :: tl ∧ t.ty = .flatten) → ∀ κ, Stk κ0 κ → ∀ r, κ r st)
+
+theorem EndOK.of_allRun {κ0 : Kont N} {st : PState} {rest : List Token} (h : AllRun κ0 st) : EndOK κ0 st rest :=
+  ⟨h.2, fun _ => h.1⟩
+
+def HeadLB (rest : List Token) : Prop := ∃ t tl, rest = t :: tl ∧ t.ty = .lbracket
+
+theorem EndOK.of_prhs {κ0 : Kont N} {st : PState} {rest : List Token} (hl : HeadLB rest) (h : PrhsRun κ0 st) : EndOK κ0 st rest := by
+  refine ⟨h, ?_⟩
+  rintro ⟨t, tl, e, ht⟩
+  obtain ⟨t', tl', e', ht'⟩ := hl
+  rw [e] at e'; simp only [List.cons.injEq] at e'; rw [← e'.1, ht] at ht'; cases ht'
+
+/-- projection brackets (`[*]`, `[]`, slices, filters): led and nud, needing only `EndOK` afterwards -/
+def MotBrP (N : Type) [NumOps N] (s : List Token) : Prop :=
+  ∃ t tl, s = t :: tl ∧ (t.ty = .lbracket ∨ t.ty = .flatten ∨ t.ty = .filter) ∧
+    (∀ (κ0 : Kont N) (k : Nat) (κ1 : Kont N) (left : Node N) (bef rest : List Token), Frame κ0 k κ1 → rest ≠ [] →
+      EndOK κ0 ⟨s.reverse ++ bef, rest⟩ rest → CallK (.led t.ty left ⟨t :: bef, tl ++ rest⟩) (pushK k id κ1)) ∧
+    (∀ (κ0 : Kont N) (k : Nat) (κ1 : Kont N) (bef rest : List Token), Frame κ0 k κ1 → rest ≠ [] →
+      EndOK κ0 ⟨s.reverse ++ bef, rest⟩ rest → CallK (.nud t ⟨t :: bef, tl ++ rest⟩) (pushK k id κ1))
+
+theorem followOK_ne {rest : List Token} (h : FollowOK rest) : rest ≠ [] := by
+  obtain ⟨t, tl, rfl, _⟩ := h; simp
+
+theorem motBr_of_P {s : List Token} (h : MotBrP N s) : MotBr N s := by
+  obtain ⟨t, tl, rfl, hty, hled, hnud⟩ := h
+  exact ⟨t, tl, rfl, hty, fun κ0 k κ1 left bef rest hf hfo hall => hled κ0 k κ1 left bef rest hf (followOK_ne hfo) (.of_allRun hall),
+    fun κ0 k κ1 bef rest hf hfo hall => hnud κ0 k κ1 bef rest hf (followOK_ne hfo) (.of_allRun hall)⟩
+
+theorem br_star {l s r : Token} (hl : l.ty = .lbracket) (hs : s.ty = .star) (hr : r.ty = .rbracket) : MotBrP N [l, s, r] := by
   refine ⟨l, [s, r], rfl, Or.inl hl, ?_, ?_⟩
-  · intro κ0 k κ1 left bef rest hf hfo hall
-    obtain ⟨x, p1, hR, hκ⟩ := hall.2 _ (hf (fun x => .proj left x)) 20 (by omega)
+  · intro κ0 k κ1 left bef rest hf _ hall
+    obtain ⟨x, p1, hR, hκ⟩ := hall.1 _ (hf (fun x => .proj left x)) 20 (by omega)
     rw [hl]
     exact ⟨_, p1, R.ledBracketStar (p := ⟨l :: bef, s :: r :: rest⟩) rfl hs hr hR, hκ⟩
-  · intro κ0 k κ1 bef rest hf hfo hall
-    obtain ⟨x, p1, hR, hκ⟩ := hall.2 _ (hf (fun x => .proj .identity x)) 20 (by omega)
+  · intro κ0 k κ1 bef rest hf _ hall
+    obtain ⟨x, p1, hR, hκ⟩ := hall.1 _ (hf (fun x => .proj .identity x)) 20 (by omega)
     exact ⟨_, p1, R.nudBracketStar (p := ⟨l :: bef, s :: r :: rest⟩) hl rfl hs hr hR, hκ⟩
 
-theorem br_flatten {t : Token} (h : t.ty = .flatten) : MotBr N [t] := by
+theorem br_flatten {t : Token} (h : t.ty = .flatten) : MotBrP N [t] := by
   refine ⟨t, [], rfl, Or.inr (Or.inl h), ?_, ?_⟩
-  · intro κ0 k κ1 left bef rest hf hfo hall
-    obtain ⟨x, p1, hR, hκ⟩ := hall.2 _ (hf (fun x => .proj (.flatten left) x)) 9 (by omega)
+  · intro κ0 k κ1 left bef rest hf _ hall
+    obtain ⟨x, p1, hR, hκ⟩ := hall.1 _ (hf (fun x => .proj (.flatten left) x)) 9 (by omega)
     rw [h]
     exact ⟨_, p1, R.ledFlatten hR, hκ⟩
-  · intro κ0 k κ1 bef rest hf hfo hall
-    obtain ⟨x, p1, hR, hκ⟩ := hall.2 _ (hf (fun x => .proj (.flatten .identity) x)) 9 (by omega)
+  · intro κ0 k κ1 bef rest hf _ hall
+    obtain ⟨x, p1, hR, hκ⟩ := hall.1 _ (hf (fun x => .proj (.flatten .identity) x)) 9 (by omega)
     exact ⟨_, p1, R.nudFlatten h hR, hκ⟩
 
 theorem filter_ok {e : List Token} (ihe : MotE N e) {r : Token} (hr : r.ty = .rbracket) {κ0 : Kont N} {k : Nat} {κ1 : Kont N}
-    (n : Node N) (bef rest : List Token) (hf : Frame κ0 k κ1) (hfo : FollowOK rest)
-    (hall : AllRun κ0 ⟨r :: (e.reverse ++ bef), rest⟩) : CallK (.filter n ⟨bef, e ++ r :: rest⟩) (pushK k id κ1) := by
-  obtain ⟨u, tl, rfl, hu⟩ := hfo
+    (n : Node N) (bef rest : List Token) (hf : Frame κ0 k κ1) (hne : rest ≠ [])
+    (hall : EndOK κ0 ⟨r :: (e.reverse ++ bef), rest⟩ rest) : CallK (.filter n ⟨bef, e ++ r :: rest⟩) (pushK k id κ1) := by
+  obtain ⟨u, tl, rfl⟩ : ∃ u tl, rest = u :: tl := by
+    cases rest with
+    | nil => exact absurd rfl hne
+    | cons u tl => exact ⟨u, tl, rfl⟩
   let κf : Kont N := fun cond p1 =>
     (∃ rb t rest', p1.after = rb :: t :: rest' ∧ rb.ty = .rbracket ∧ t.ty = .flatten ∧
       pushK k id κ1 (.filterProj n .identity cond) p1.advance) ∨
@@ -328,9 +356,9 @@ theorem filter_ok {e : List Token} (ihe : MotE N e) {r : Token} (hr : r.ty = .rb
   have h0 : ∀ x, κf x ⟨e.reverse ++ bef, r :: u :: tl⟩ := by
     intro x
     by_cases hfl : u.ty = .flatten
-    · exact Or.inl ⟨r, u, tl, rfl, hr, hfl, by simpa [PState.advance] using hall.1 _ (hf id) _⟩
+    · exact Or.inl ⟨r, u, tl, rfl, hr, hfl, by simpa [PState.advance] using hall.2 ⟨u, tl, rfl, hfl⟩ _ (hf id) _⟩
     · exact Or.inr ⟨r, u, tl, rfl, hr, hfl,
-        hall.2 _ (hf (fun y => .filterProj n y x)) 21 (by omega)⟩
+        hall.1 _ (hf (fun y => .filterProj n y x)) 21 (by omega)⟩
   obtain ⟨cond, p1, hR, hc⟩ := ihe κf 0 κf bef (r :: u :: tl) (by omega) (Frame.base κf) ⟨r, _, rfl, by rw [hr]; rfl⟩
     (allRun_closer (by rw [hr]; rfl) h0)
   rcases hc with ⟨rb, t, rest', hafter, hrb, ht, hκ⟩ | ⟨rb, t, rest', hafter, hrb, ht, x, p2, hR2, hκ⟩
@@ -338,20 +366,19 @@ theorem filter_ok {e : List Token} (ihe : MotE N e) {r : Token} (hr : r.ty = .rb
   · exact ⟨_, p2, R.filterRhs hR hafter hrb ht hR2, hκ⟩
 
 theorem br_filter {l r : Token} {e : List Token} (hl : l.ty = .filter) (hr : r.ty = .rbracket) (ihe : MotE N e) :
-    MotBr N (l :: e ++ [r]) := by
+    MotBrP N (l :: e ++ [r]) := by
   refine ⟨l, e ++ [r], rfl, Or.inr (Or.inr hl), ?_, ?_⟩
-  · intro κ0 k κ1 left bef rest hf hfo hall
-    have hall' : AllRun κ0 ⟨r :: (e.reverse ++ (l :: bef)), rest⟩ := by
+  · intro κ0 k κ1 left bef rest hf hne hall
+    have hall' : EndOK κ0 ⟨r :: (e.reverse ++ (l :: bef)), rest⟩ rest := by
       simpa [List.reverse_append, List.append_assoc] using hall
-    obtain ⟨x, p1, hR, hκ⟩ := filter_ok ihe hr left (l :: bef) rest hf hfo hall'
+    obtain ⟨x, p1, hR, hκ⟩ := filter_ok ihe hr left (l :: bef) rest hf hne hall'
     rw [hl]
     exact ⟨x, p1, R.ledFilter (by simpa [List.append_assoc] using hR), hκ⟩
-  · intro κ0 k κ1 bef rest hf hfo hall
-    have hall' : AllRun κ0 ⟨r :: (e.reverse ++ (l :: bef)), rest⟩ := by
+  · intro κ0 k κ1 bef rest hf hne hall
+    have hall' : EndOK κ0 ⟨r :: (e.reverse ++ (l :: bef)), rest⟩ rest := by
       simpa [List.reverse_append, List.append_assoc] using hall
-    obtain ⟨x, p1, hR, hκ⟩ := filter_ok ihe hr .identity (l :: bef) rest hf hfo hall'
+    obtain ⟨x, p1, hR, hκ⟩ := filter_ok ihe hr .identity (l :: bef) rest hf hne hall'
     exact ⟨x, p1, R.nudFilter hl (by simpa [List.append_assoc] using hR), hκ⟩
-
 
 /-! ### slices -/
 
@@ -401,20 +428,20 @@ theorem slice_parse {s : List Token} (hs : SliceG s) (hok : NumOK s) :
 
 
 theorem br_slice {l r : Token} {s : List Token} (hl : l.ty = .lbracket) (hs : SliceG s) (hr : r.ty = .rbracket)
-    (hok : NumOK (l :: s ++ [r])) : MotBr N (l :: s ++ [r]) := by
+    (hok : NumOK (l :: s ++ [r])) : MotBrP N (l :: s ++ [r]) := by
   obtain ⟨nd, hnd, ⟨t, tl, hst, htt⟩, hparse⟩ := slice_parse (N := N) hs hok.tail.left
   refine ⟨l, s ++ [r], rfl, Or.inl hl, ?_, ?_⟩
-  · intro κ0 k κ1 left bef rest hf hfo hall
-    have hall' : AllRun κ0 ⟨r :: (s.reverse ++ (l :: bef)), rest⟩ := by
+  · intro κ0 k κ1 left bef rest hf _ hall
+    have hall' : EndOK κ0 ⟨r :: (s.reverse ++ (l :: bef)), rest⟩ rest := by
       simpa [List.reverse_append, List.append_assoc] using hall
-    obtain ⟨x, p1, hR, hκ⟩ := hall'.2 _ (hf (fun x => .proj (.indexExpr left nd) x)) 20 (by omega)
+    obtain ⟨x, p1, hR, hκ⟩ := hall'.1 _ (hf (fun x => .proj (.indexExpr left nd) x)) 20 (by omega)
     rw [hl]
     refine ⟨_, p1, R.ledBracketIdx (p := ⟨l :: bef, (s ++ [r]) ++ rest⟩) (t := t) (rest := tl ++ [r] ++ rest)
       (by simp [hst]) htt (by simpa [List.append_assoc] using hparse (l :: bef) rest r hr) (R.pisSlice hnd hR), hκ⟩
-  · intro κ0 k κ1 bef rest hf hfo hall
-    have hall' : AllRun κ0 ⟨r :: (s.reverse ++ (l :: bef)), rest⟩ := by
+  · intro κ0 k κ1 bef rest hf _ hall
+    have hall' : EndOK κ0 ⟨r :: (s.reverse ++ (l :: bef)), rest⟩ rest := by
       simpa [List.reverse_append, List.append_assoc] using hall
-    obtain ⟨x, p1, hR, hκ⟩ := hall'.2 _ (hf (fun x => .proj (.indexExpr .identity nd) x)) 20 (by omega)
+    obtain ⟨x, p1, hR, hκ⟩ := hall'.1 _ (hf (fun x => .proj (.indexExpr .identity nd) x)) 20 (by omega)
     refine ⟨_, p1, R.nudBracketIdx (p := ⟨l :: bef, (s ++ [r]) ++ rest⟩) (t := t) (rest := tl ++ [r] ++ rest) hl
       (by simp [hst]) htt (by simpa [List.append_assoc] using hparse (l :: bef) rest r hr) (R.pisSlice hnd hR), hκ⟩
 
@@ -453,7 +480,7 @@ theorem pe_index0 {b : List Token} (ihb : MotBr N b) : MotE N b := by
 /-! ### first and second tokens of grammatical phrases -/
 
 def headOK : Cat → TokType → Prop
-  | .expr, ty | .elems, ty => startTy ty = true
+  | .expr, ty | .elems, ty | .openExpr, ty => startTy ty = true
   | .args, ty | .arg, ty => startTy ty = true ∨ ty = .expref
   | .bracket, ty => ty = .lbracket ∨ ty = .flatten ∨ ty = .filter
   | .msList, ty => ty = .lbracket
@@ -465,8 +492,10 @@ theorem G_head {l : Bool} {c : Cat} {s : List Token} (h : G N l c s) : ∃ t tl,
   induction h with
   | ident h => exact ⟨_, _, rfl, by rcases h with h | h <;> simp [headOK, startTy, h]⟩
   | star h | current h | raw h | literal h _ => exact ⟨_, _, rfl, by simp [headOK, startTy, h]⟩
-  | sub _ _ _ ih _ | bin _ _ _ ih _ | index _ _ ih _ | lenientList _ _ _ ih _ | elemsMore _ _ _ ih _ =>
+  | sub _ _ _ ih _ | bin _ _ _ ih _ | index _ _ ih _ | lenientList _ _ _ ih _ | elemsMore _ _ _ ih _ | openIdx _ _ _ ih _ | openDotStar _ _ _ ih =>
     obtain ⟨t, tl, rfl, ht⟩ := ih; exact ⟨t, _, rfl, ht⟩
+  | openIdx0 _ _ ih => obtain ⟨t, tl, rfl, ht⟩ := ih; exact ⟨t, _, rfl, by rcases ht with h | h | h <;> simp [headOK, startTy, h]⟩
+  | openStar h => exact ⟨_, _, rfl, by simp [headOK, startTy, h]⟩
   | argsMore _ _ _ ih _ => obtain ⟨t, tl, rfl, ht⟩ := ih; exact ⟨t, _, rfl, ht⟩
   | not h _ _ | paren h _ _ _ => exact ⟨_, _, rfl, by simp [headOK, startTy, h]⟩
   | index0 _ ih => obtain ⟨t, tl, rfl, ht⟩ := ih; exact ⟨t, _, rfl, by rcases ht with h | h | h <;> simp [headOK, startTy, h]⟩
@@ -475,7 +504,7 @@ theorem G_head {l : Bool} {c : Cat} {s : List Token} (h : G N l c s) : ∃ t tl,
   | elemsOne _ ih | argsOne _ ih => exact ih
   | argExpr _ ih => obtain ⟨t, tl, rfl, ht⟩ := ih; exact ⟨t, _, rfl, Or.inl ht⟩
   | argRef h _ _ => exact ⟨_, _, rfl, Or.inr h⟩
-  | brNumber h _ _ | brStar h _ _ | brSlice h _ _ => exact ⟨_, _, rfl, Or.inl h⟩
+  | brNumber h _ _ _ | brStar h _ _ | brSlice h _ _ _ => exact ⟨_, _, rfl, Or.inl h⟩
   | brFlatten h => exact ⟨_, _, rfl, Or.inr (Or.inl h)⟩
   | brFilter h _ _ _ => exact ⟨_, _, rfl, Or.inr (Or.inr h)⟩
   | msList h _ _ _ | msHash h _ _ _ | call0 h _ _ | callArgs h _ _ _ _ => exact ⟨_, _, rfl, h⟩
@@ -504,7 +533,7 @@ theorem starSnd_append {a b : List Token} (ha : a ≠ []) (iha : StarSnd a) (hb 
 theorem starSnd_of_head {s : List Token} (h : ∀ t tl, s = t :: tl → t.ty ≠ .star) : StarSnd s :=
   fun x y ys hs hx => absurd hx (h x _ hs)
 
-theorem G_starSnd {l : Bool} {c : Cat} {s : List Token} (h : G N l c s) : (c = .expr ∨ c = .elems) → StarSnd s := by
+theorem G_starSnd {l : Bool} {c : Cat} {s : List Token} (h : G N l c s) : (c = .expr ∨ c = .elems ∨ c = .openExpr) → StarSnd s := by
   induction h with
   | ident _ | star _ | current _ | raw _ | literal _ _ => intro _ x y ys h; simp at h
   | sub ha hd _ ih _ =>
@@ -522,7 +551,7 @@ theorem G_starSnd {l : Bool} {c : Cat} {s : List Token} (h : G N l c s) : (c = .
       rw [h'] at h; simp only [List.cons.injEq] at h; rw [← h.1]
       rcases ht' with e | e | e <;> rw [e] <;> decide)
   | lenientList _ ha hb ih _ =>
-    intro _; exact starSnd_append (G_ne ha) (ih (Or.inl rfl)) (fun t tl h => by
+    intro _; exact starSnd_append (G_ne ha) (ih (Or.inr (Or.inr rfl))) (fun t tl h => by
       obtain ⟨t', tl', h', ht'⟩ := G_head hb
       rw [h'] at h; simp only [List.cons.injEq] at h; rw [← h.1]
       simp only [headOK] at ht'; rw [ht']; decide)
@@ -534,7 +563,21 @@ theorem G_starSnd {l : Bool} {c : Cat} {s : List Token} (h : G N l c s) : (c = .
       rw [h'] at e; simp only [List.cons.injEq] at e; rw [← e.1]
       first | (have e' : t'.ty = _ := ht'; rw [e']; decide) | (rcases ht' with e' | e' | e' <;> rw [e'] <;> decide))
   | elemsOne _ ih => intro _; exact ih (Or.inl rfl)
-  | _ => intro h; rcases h with h | h <;> cases h
+  | openIdx ha hb _ ih _ =>
+    intro _; exact starSnd_append (G_ne ha) (ih (Or.inl rfl)) (fun t tl h => by
+      obtain ⟨t', tl', h', ht'⟩ := G_head hb
+      rw [h'] at h; simp only [List.cons.injEq] at h; rw [← h.1]
+      rcases ht' with e | e | e <;> rw [e] <;> decide)
+  | openIdx0 hb _ _ =>
+    intro _; exact starSnd_of_head (fun t tl e => by
+      obtain ⟨t', tl', h', ht'⟩ := G_head hb
+      rw [h'] at e; simp only [List.cons.injEq] at e; rw [← e.1]
+      rcases ht' with e' | e' | e' <;> rw [e'] <;> decide)
+  | openDotStar ha hd _ ih =>
+    intro _; exact starSnd_append (G_ne ha) (ih (Or.inl rfl)) (fun t tl h => by
+      simp only [List.cons.injEq] at h; rw [← h.1, hd]; decide)
+  | openStar _ => intro _ x y ys h; simp at h
+  | _ => intro h; rcases h with h | h | h <;> cases h
 
 
 /-! ### multi-select lists -/
@@ -579,7 +622,7 @@ theorem ms_list {lz : Bool} {l r : Token} {e : List Token} (hl : l.ty = .lbracke
       by_cases hs : x.ty = .star
       · exact Or.inl ⟨x, r, rfl, hs, hr⟩
       · exact Or.inr ⟨x, r, [], rfl, hx, fun h => hs h.1⟩
-    | cons y ys => exact Or.inr ⟨x, y, ys ++ [r], rfl, hx, fun h => G_starSnd he (Or.inr rfl) x y ys rfl h.1 h.2⟩
+    | cons y ys => exact Or.inr ⟨x, y, ys ++ [r], rfl, hx, fun h => G_starSnd he (Or.inr (Or.inl rfl)) x y ys rfl h.1 h.2⟩
   · intro κ bef rest hκ
     have := ihe [] (l :: bef) r rest κ hr (fun n => by simpa [List.reverse_append, List.append_assoc] using hκ n)
     simpa [List.append_assoc] using this
@@ -588,7 +631,7 @@ theorem pe_list {b : List Token} (ih : MotList N b) : MotE N b := by
   obtain ⟨l, tl, rfl, hl, shape, hmsl⟩ := ih
   intro κ0 k κ1 bef rest hk hf hfo hall
   rcases shape with ⟨x, r, rfl, hx, hr⟩ | ⟨x, y, ys, rfl, hx, hns⟩
-  · exact pe_index0 (br_star hl hx hr) κ0 k κ1 bef rest hk hf hfo hall
+  · exact pe_index0 (motBr_of_P (br_star hl hx hr)) κ0 k κ1 bef rest hk hf hfo hall
   · obtain ⟨n, p1, hR, hκ⟩ := hmsl (pushK k id κ1) bef rest (fun x => hall.1 _ (hf id) x)
     obtain ⟨h1, h2, h3, h4, h5, h6⟩ := start_ne hx
     by_cases hs : x.ty = .star
@@ -764,12 +807,91 @@ theorem dotrhs_call {b : List Token} (hb : ∃ t tl, b = t :: tl ∧ t.ty = .uid
   exact ⟨hA, dotB_of_dotA (by rw [ht]; decide) hA⟩
 
 
+/-! ### expressions that end in an open projection, and the list that may follow them (finding D24) -/
+
+/-- as `MotE`, for a phrase followed by `[`: only a projection right-hand side has to be possible afterwards -/
+def MotOpen (N : Type) [NumOps N] (s : List Token) : Prop :=
+  ∀ (κ0 : Kont N) (k : Nat) (κ1 : Kont N) (bef rest : List Token), k ≤ 45 → Frame κ0 k κ1 → HeadLB rest →
+    PrhsRun κ0 ⟨s.reverse ++ bef, rest⟩ → CallK (.expr k ⟨bef, s ++ rest⟩) κ1
+
+theorem headLB_ne {rest : List Token} (h : HeadLB rest) : rest ≠ [] := by
+  obtain ⟨t, tl, rfl, _⟩ := h; simp
+
+theorem allRun_bracketP {b : List Token} (ihb : MotBrP N b) {κ0 : Kont N} {bef rest : List Token} (hne : rest ≠ [])
+    (hall : EndOK κ0 ⟨b.reverse ++ bef, rest⟩ rest) : AllRun κ0 ⟨bef, b ++ rest⟩ ∧ FollowOK (b ++ rest) := by
+  obtain ⟨t, tl, rfl, hty, hled, hnud⟩ := ihb
+  obtain ⟨hp0, hft⟩ := br_pow hty
+  have L : ∀ k' left κ, k' < specPow t.ty → Frame κ0 k' κ → CallK (.led t.ty left ⟨t :: bef, tl ++ rest⟩) (pushK k' id κ) :=
+    fun k' left κ _ hf' => hled κ0 k' κ left bef rest hf' hne hall
+  refine ⟨allRun_of_led hp0 L ?_, ⟨t, _, rfl, hft⟩⟩
+  intro κ hκ bp hbp
+  rcases hty with h | h | h
+  · obtain ⟨x, p1, hR, hk⟩ := expr_of_nudK (hnud κ0 bp κ bef rest (Frame.of_stk hκ bp) hne hall)
+    exact ⟨x, p1, R.prhsBracket (p := ⟨bef, t :: tl ++ rest⟩) rfl (by rw [T_power, h]; decide) (Or.inl h) hR, hk⟩
+  · exact prhs_id (by rw [h]; decide) (dispatch hp0 L κ hκ _)
+  · obtain ⟨x, p1, hR, hk⟩ := expr_of_nudK (hnud κ0 bp κ bef rest (Frame.of_stk hκ bp) hne hall)
+    exact ⟨x, p1, R.prhsBracket (p := ⟨bef, t :: tl ++ rest⟩) rfl (by rw [T_power, h]; decide) (Or.inr h) hR, hk⟩
+
+theorem open_idx {a b : List Token} (iha : MotE N a) (ihb : MotBrP N b) : MotOpen N (a ++ b) := by
+  intro κ0 k κ1 bef rest hk hf hlb hp
+  have hp' : PrhsRun κ0 ⟨b.reverse ++ (a.reverse ++ bef), rest⟩ := by
+    simpa [List.reverse_append, List.append_assoc] using hp
+  obtain ⟨h1, h2⟩ := allRun_bracketP ihb (headLB_ne hlb) (.of_prhs hlb hp')
+  have := iha κ0 k κ1 bef (b ++ rest) hk hf h2 h1
+  simpa [List.append_assoc] using this
+
+theorem open_idx0 {b : List Token} (ihb : MotBrP N b) : MotOpen N b := by
+  intro κ0 k κ1 bef rest hk hf hlb hp
+  obtain ⟨t, tl, rfl, hty, hled, hnud⟩ := ihb
+  exact expr_of_nudK (hnud κ0 k κ1 bef rest hf (headLB_ne hlb) (.of_prhs hlb hp))
+
+theorem open_star {t : Token} (h : t.ty = .star) : MotOpen N [t] := by
+  intro κ0 k κ1 bef rest hk hf hlb hp
+  obtain ⟨u, tl, rfl, hu⟩ := hlb
+  obtain ⟨r, p1, hR, hκ⟩ := hp _ (hf (fun r => .valueProj .identity r)) 20 (by omega)
+  exact expr_of_nudK ⟨_, _, R.nudStar (p := ⟨t :: bef, u :: tl⟩) h rfl (by rw [hu]; decide) hR, hκ⟩
+
+theorem open_dotstar {a : List Token} {d s : Token} (iha : MotE N a) (hd : d.ty = .dot) (hs : s.ty = .star) :
+    MotOpen N (a ++ [d, s]) := by
+  intro κ0 k κ1 bef rest hk hf hlb hp
+  have hp' : PrhsRun κ0 ⟨s :: d :: (a.reverse ++ bef), rest⟩ := by
+    simpa [List.reverse_append, List.append_assoc] using hp
+  have hp0 : 0 < specPow d.ty := by rw [hd]; decide
+  have L : ∀ k' left κ, k' < specPow d.ty → Frame κ0 k' κ →
+      CallK (.led d.ty left ⟨d :: (a.reverse ++ bef), s :: rest⟩) (pushK k' id κ) := by
+    intro k' left κ _ hf'
+    obtain ⟨r, p1, hR, hκ⟩ := hp' _ (hf' (fun r => .valueProj left r)) 20 (by omega)
+    rw [hd]
+    exact ⟨.valueProj left r, p1, R.ledDotStar (p := ⟨d :: (a.reverse ++ bef), s :: rest⟩) rfl hs hR, hκ⟩
+  have P : ∀ κ, Stk κ0 κ → ∀ bp, bp ≤ 45 → CallK (.prhs bp ⟨a.reverse ++ bef, d :: s :: rest⟩) κ := by
+    intro κ hκ bp hbp
+    obtain ⟨r, p1, hR, hk'⟩ := open_star (N := N) hs κ0 bp κ (d :: (a.reverse ++ bef)) rest hbp (Frame.of_stk hκ bp) hlb hp'
+    exact ⟨r, p1, R.prhsDot (p := ⟨a.reverse ++ bef, d :: s :: rest⟩) rfl (by rw [T_power, hd]; decide) hd
+      (R.dotStar (p := ⟨d :: (a.reverse ++ bef), s :: rest⟩) rfl hs hR), hk'⟩
+  have := iha κ0 k κ1 bef (d :: s :: rest) hk hf ⟨d, _, rfl, by rw [hd]; rfl⟩ (allRun_of_led hp0 L P)
+  simpa [List.append_assoc] using this
+
+/-- the lenient production: a multi-select list directly after an open projection is read as the
+    projection's right-hand side -/
+theorem pe_lenient {a b : List Token} (iha : MotOpen N a) (ihb : MotList N b) : MotE N (a ++ b) := by
+  intro κ0 k κ1 bef rest hk hf hfo hall
+  have hE : MotE N b := pe_list ihb
+  obtain ⟨l, tl, rfl, hl, _, _⟩ := ihb
+  have hall' : AllRun κ0 ⟨(l :: tl).reverse ++ (a.reverse ++ bef), rest⟩ := by
+    simpa [List.reverse_append, List.append_assoc] using hall
+  have hp : PrhsRun κ0 ⟨a.reverse ++ bef, (l :: tl) ++ rest⟩ := by
+    intro κ hκ bp hbp
+    obtain ⟨r, p1, hR, hk'⟩ := hE κ0 bp κ (a.reverse ++ bef) rest hbp (Frame.of_stk hκ bp) hfo hall'
+    exact ⟨r, p1, R.prhsBracket (p := ⟨a.reverse ++ bef, l :: tl ++ rest⟩) rfl (by rw [T_power, hl]; decide) (Or.inl hl) hR, hk'⟩
+  have := iha κ0 k κ1 bef ((l :: tl) ++ rest) hk hf ⟨l, _, rfl, hl⟩ hp
+  simpa [List.append_assoc] using this
+
 /-! ### every phrase of the published grammar is read by the parser -/
 
 def Mot (N : Type) [NumOps N] : Cat → List Token → Prop
   | .expr, s => MotE N s
   | .dotRhs, s => MotDotA N s ∧ MotDotB N s
-  | .bracket, s => MotBr N s
+  | .bracket, s => MotBr N s ∧ (ProjBr s → MotBrP N s)
   | .msList, s => MotList N s
   | .msHash, s => MotHash N s
   | .call, s => MotE N s
@@ -777,8 +899,9 @@ def Mot (N : Type) [NumOps N] : Cat → List Token → Prop
   | .kvs, s => MotKvs N s
   | .args, s => MotArgs N s
   | .arg, s => MotArg N s
+  | .openExpr, s => MotOpen N s
 
-theorem G_complete {c : Cat} {s : List Token} (h : G N false c s) : NumOK s → Mot N c s := by
+theorem G_complete {lz : Bool} {c : Cat} {s : List Token} (h : G N lz c s) : NumOK s → Mot N c s := by
   induction h with
   | ident h => intro _; exact pe_ident h
   | star h => intro _; exact pe_star h
@@ -789,22 +912,27 @@ theorem G_complete {c : Cat} {s : List Token} (h : G N false c s) : NumOK s → 
   | bin _ ho _ iha ihb => intro hok; exact pe_bin (iha hok.left) (ihb hok.right.tail) ho
   | not h _ iha => intro hok; exact pe_not h (iha hok.tail)
   | paren hl _ hr iha => intro hok; exact pe_paren hl hr (iha hok.tail.left)
-  | index _ _ iha ihb => intro hok; exact pe_index (iha hok.left) (ihb hok.right)
-  | index0 _ ihb => intro hok; exact pe_index0 (ihb hok)
+  | index _ _ iha ihb => intro hok; exact pe_index (iha hok.left) (ihb hok.right).1
+  | index0 _ ihb => intro hok; exact pe_index0 (ihb hok).1
   | list _ ih => intro hok; exact pe_list (ih hok)
   | hash _ ih => intro hok; exact pe_hash (ih hok)
   | fn _ ih => intro hok; exact ih hok
-  | lenientList hl _ _ _ _ => cases hl
+  | lenientList _ _ _ iha ihb => intro hok; exact pe_lenient (iha hok.left) (ihb hok.right)
+  | openIdx _ _ hpb iha ihb => intro hok; exact open_idx (iha hok.left) ((ihb hok.right).2 hpb)
+  | openIdx0 _ hpb ihb => intro hok; exact open_idx0 ((ihb hok).2 hpb)
+  | openDotStar _ hd hs iha => intro hok; exact open_dotstar (iha hok.left) hd hs
+  | openStar hs => intro _; exact open_star hs
   | dotIdent h => intro _; exact dotrhs_ident h
   | dotStar h => intro _; exact dotrhs_star h
   | dotList _ ih => intro hok; exact dotrhs_list (ih hok)
   | dotHash _ ih => intro hok; exact dotrhs_hash (ih hok)
   | dotFn hb ih => intro hok; exact dotrhs_call (head_call hb) (ih hok)
-  | brNumber hl hn hr => intro hok; exact br_number hl hn hr hok
-  | brStar hl hs hr => intro _; exact br_star hl hs hr
-  | brSlice hl hs hr => intro hok; exact br_slice hl hs hr hok
-  | brFlatten h => intro _; exact br_flatten h
-  | brFilter hl _ hr ihe => intro hok; exact br_filter hl hr (ihe hok.tail.left)
+  | brNumber hl hn hr _ => intro hok; exact ⟨br_number hl hn hr hok, fun hp => absurd hn (hp _ _ _ rfl)⟩
+  | brStar hl hs hr => intro _; exact ⟨motBr_of_P (br_star hl hs hr), fun _ => br_star hl hs hr⟩
+  | brSlice hl hs hr _ => intro hok; exact ⟨motBr_of_P (br_slice hl hs hr hok), fun _ => br_slice hl hs hr hok⟩
+  | brFlatten h => intro _; exact ⟨motBr_of_P (br_flatten h), fun _ => br_flatten h⟩
+  | brFilter hl _ hr ihe =>
+    intro hok; exact ⟨motBr_of_P (br_filter hl hr (ihe hok.tail.left)), fun _ => br_filter hl hr (ihe hok.tail.left)⟩
   | msList hl he hr ihe => intro hok; exact ms_list hl he (ihe hok.tail.left) hr
   | elemsOne _ iha => intro hok; exact elems_one (iha hok)
   | elemsMore _ hc _ iha ihb => intro hok; exact elems_more (iha hok.left) hc (ihb hok.right.tail)
@@ -819,14 +947,113 @@ theorem G_complete {c : Cat} {s : List Token} (h : G N false c s) : NumOK s → 
   | argExpr ha iha => intro hok; exact margs_expr ha (iha hok)
   | argRef h _ iha => intro hok; exact margs_ref h (iha hok.tail)
 
-/-- **Completeness of the parser for the published grammar** (specification table): a sentence of
-    `G false` whose number tokens are in the int64 range is accepted. -/
-theorem sentence_parses {toks : List Token} {total : Nat} (hs : Sentence N false toks) (hnum : NumOK toks)
+theorem ne_number_of {t : Token} {ty : TokType} (h : t.ty = ty) (hne : ty ≠ .number) : t.ty ≠ .number := by rw [h]; exact hne
+
+theorem isIdent_ne_number {t : Token} (h : isIdent t) : t.ty ≠ .number := by
+  rcases h with h | h <;> rw [h] <;> decide
+
+theorem isBinOp_ne_number {t : Token} (h : isBinOp t.ty) : t.ty ≠ .number := by
+  intro e; rw [e] at h; simp [isBinOp, Cmp.ofTok] at h
+
+/-- in the accepted-language grammar every number token is in range: numbers occur only in `[n]` and
+    in slices, where the grammar says so -/
+theorem numOK_of_G {c : Cat} {s : List Token} (h : G N true c s) : NumOK s := by
+  induction h with
+  | ident hi => exact .cons_ne (isIdent_ne_number hi) .nil
+  | star h | current h | raw h | literal h _ | dotStar h | brFlatten h | openStar h =>
+    exact .cons_ne (ne_number_of h (by decide)) .nil
+  | dotIdent hi => exact .cons_ne (isIdent_ne_number hi) .nil
+  | sub _ hd _ iha ihb => exact .append iha (.cons_ne (ne_number_of hd (by decide)) ihb)
+  | bin _ ho _ iha ihb => exact .append iha (.cons_ne (isBinOp_ne_number ho) ihb)
+  | not h _ iha => exact .cons_ne (ne_number_of h (by decide)) iha
+  | paren hl _ hr iha =>
+    exact .cons_ne (ne_number_of hl (by decide)) (.append iha (.cons_ne (ne_number_of hr (by decide)) .nil))
+  | index _ _ iha ihb | lenientList _ _ _ iha ihb => exact .append iha ihb
+  | openIdx _ _ _ iha ihb => exact .append iha ihb
+  | index0 _ ih | list _ ih | hash _ ih | fn _ ih | dotList _ ih | dotHash _ ih | dotFn _ ih | elemsOne _ ih | argsOne _ ih
+  | argExpr _ ih => exact ih
+  | openIdx0 _ _ ih => exact ih
+  | openDotStar _ hd hs iha =>
+    exact .append iha (.cons_ne (ne_number_of hd (by decide)) (.cons_ne (ne_number_of hs (by decide)) .nil))
+  | brNumber hl _ hr hno => exact .cons_ne (ne_number_of hl (by decide)) (.append (hno rfl) (.cons_ne (ne_number_of hr (by decide)) .nil))
+  | brStar hl hs hr =>
+    exact .cons_ne (ne_number_of hl (by decide)) (.cons_ne (ne_number_of hs (by decide)) (.cons_ne (ne_number_of hr (by decide)) .nil))
+  | brSlice hl _ hr hno => exact .cons_ne (ne_number_of hl (by decide)) (.append (hno rfl) (.cons_ne (ne_number_of hr (by decide)) .nil))
+  | brFilter hl _ hr ih | msList hl _ hr ih | msHash hl _ hr ih =>
+    exact .cons_ne (ne_number_of hl (by decide)) (.append ih (.cons_ne (ne_number_of hr (by decide)) .nil))
+  | elemsMore _ hc _ iha ihb | argsMore _ hc _ iha ihb => exact .append iha (.cons_ne (ne_number_of hc (by decide)) ihb)
+  | kvsOne hk hc _ iha => exact .cons_ne (isIdent_ne_number hk) (.cons_ne (ne_number_of hc (by decide)) iha)
+  | kvsMore hk hc _ hm _ iha ihb =>
+    exact .cons_ne (isIdent_ne_number hk) (.cons_ne (ne_number_of hc (by decide))
+      (.append iha (.cons_ne (ne_number_of hm (by decide)) ihb)))
+  | call0 hf hl hr =>
+    exact .cons_ne (ne_number_of hf (by decide)) (.cons_ne (ne_number_of hl (by decide)) (.cons_ne (ne_number_of hr (by decide)) .nil))
+  | callArgs hf hl _ hr iha =>
+    exact .cons_ne (ne_number_of hf (by decide)) (.cons_ne (ne_number_of hl (by decide))
+      (.append iha (.cons_ne (ne_number_of hr (by decide)) .nil)))
+  | argRef h _ iha => exact .cons_ne (ne_number_of h (by decide)) iha
+
+/-- **Completeness of the parser**: a sentence of the grammar — the published one (`lz = false`) or the
+    one extended by the lenient production (`lz = true`) — whose number tokens are in the int64 range
+    is accepted (specification table). -/
+theorem sentence_parses {lz : Bool} {toks : List Token} {total : Nat} (hs : Sentence N lz toks) (hnum : NumOK toks)
     (htoks : Lexer.TokensOK total toks) : ∃ ast : Node N, parseTokens T toks = .ok ast := by
   obtain ⟨s, e, rfl, he, hg⟩ := hs
   let κ0 : Kont N := fun _ st => st.after = [e]
   have hall : AllRun κ0 ⟨s.reverse ++ [], [e]⟩ := allRun_closer (by rw [he]; rfl) (fun _ => rfl)
   obtain ⟨ast, p1, hR, hp1⟩ := G_complete hg hnum.left κ0 0 κ0 [] [e] (by omega) (Frame.base κ0) ⟨e, [], rfl, by rw [he]; rfl⟩ hall
   exact ⟨ast, parseTokens_of_R hR ⟨e, [], hp1, he⟩ htoks⟩
+
+/-- … and for the accepted-language grammar the range condition is part of the grammar. -/
+theorem sentence_parses_exact {toks : List Token} {total : Nat} (hs : Sentence N true toks)
+    (htoks : Lexer.TokensOK total toks) : ∃ ast : Node N, parseTokens T toks = .ok ast := by
+  refine sentence_parses hs ?_ htoks
+  obtain ⟨s, e, rfl, he, hg⟩ := hs
+  exact .append (numOK_of_G hg) (.cons_ne (ne_number_of he (by decide)) .nil)
+
+/-- The published grammar, with numbers in range, is contained in the accepted-language grammar. -/
+theorem G_mono {c : Cat} {s : List Token} (h : G N false c s) : NumOK s → G N true c s := by
+  induction h with
+  | ident h => intro _; exact .ident h
+  | star h => intro _; exact .star h
+  | current h => intro _; exact .current h
+  | raw h => intro _; exact .raw h
+  | literal h hd => intro _; exact .literal h hd
+  | sub _ hd _ iha ihb => intro hok; exact .sub (iha hok.left) hd (ihb hok.right.tail)
+  | bin _ ho _ iha ihb => intro hok; exact .bin (iha hok.left) ho (ihb hok.right.tail)
+  | not h _ iha => intro hok; exact .not h (iha hok.tail)
+  | paren hl _ hr iha => intro hok; exact .paren hl (iha hok.tail.left) hr
+  | index _ _ iha ihb => intro hok; exact .index (iha hok.left) (ihb hok.right)
+  | index0 _ ih => intro hok; exact .index0 (ih hok)
+  | list _ ih => intro hok; exact .list (ih hok)
+  | hash _ ih => intro hok; exact .hash (ih hok)
+  | fn _ ih => intro hok; exact .fn (ih hok)
+  | lenientList hl _ _ _ _ => cases hl
+  | openIdx _ _ hp iha ihb => intro hok; exact .openIdx (iha hok.left) (ihb hok.right) hp
+  | openIdx0 _ hp ih => intro hok; exact .openIdx0 (ih hok) hp
+  | openDotStar _ hd hs iha => intro hok; exact .openDotStar (iha hok.left) hd hs
+  | openStar h => intro _; exact .openStar h
+  | dotIdent h => intro _; exact .dotIdent h
+  | dotStar h => intro _; exact .dotStar h
+  | dotList _ ih => intro hok; exact .dotList (ih hok)
+  | dotHash _ ih => intro hok; exact .dotHash (ih hok)
+  | dotFn _ ih => intro hok; exact .dotFn (ih hok)
+  | brNumber hl hn hr _ => intro hok; exact .brNumber hl hn hr (fun _ => hok.tail.left (b := [_]))
+  | brStar hl hs hr => intro _; exact .brStar hl hs hr
+  | brSlice hl hs hr _ => intro hok; exact .brSlice hl hs hr (fun _ => hok.tail.left)
+  | brFlatten h => intro _; exact .brFlatten h
+  | brFilter hl _ hr ih => intro hok; exact .brFilter hl (ih hok.tail.left) hr
+  | msList hl _ hr ih => intro hok; exact .msList hl (ih hok.tail.left) hr
+  | elemsOne _ ih => intro hok; exact .elemsOne (ih hok)
+  | elemsMore _ hc _ iha ihb => intro hok; exact .elemsMore (iha hok.left) hc (ihb hok.right.tail)
+  | msHash hl _ hr ih => intro hok; exact .msHash hl (ih hok.tail.left) hr
+  | kvsOne hk hc _ ih => intro hok; exact .kvsOne hk hc (ih hok.tail.tail)
+  | kvsMore hk hc _ hm _ iha ihb => intro hok; exact .kvsMore hk hc (iha hok.tail.tail.left) hm (ihb hok.tail.tail.right.tail)
+  | call0 hf hl hr => intro _; exact .call0 hf hl hr
+  | callArgs hf hl _ hr ih => intro hok; exact .callArgs hf hl (ih hok.tail.tail.left) hr
+  | argsOne _ ih => intro hok; exact .argsOne (ih hok)
+  | argsMore _ hc _ iha ihb => intro hok; exact .argsMore (iha hok.left) hc (ihb hok.right.tail)
+  | argExpr _ ih => intro hok; exact .argExpr (ih hok)
+  | argRef h _ ih => intro hok; exact .argRef h (ih hok.tail)
 
 end Jmes.Parser
